@@ -126,7 +126,19 @@ theorem step_refines {V : Type} {ops : Ops V} {r : Run V} {caps0 : Nat → Optio
           rw [if_pos hne]
           have hns := hct.notSub i (T.nonempty htk)
           simp only [hns, Bool.false_eq_true, if_false]
-          apply hct.inPlace i op hop taken ins full htk _ hfill
+          have hnodup : (taken.map (fun t => t.1)).Nodup := by
+            rcases T.hpos with h | h
+            · exact absurd h htk
+            · rw [h]; exact candidates_fst_nodup i op st.temps (hct.idxNodup i)
+          have hplace : ∀ p v, (p, v) ∈ taken → ins[p]? = some none := by
+            intro p v hm
+            obtain ⟨id, hid, _⟩ := T.htaken p v hm
+            have hlen := collectInputs_length r st2 _ op.inputs 0 ins hci
+            have hp : p < ins.length := by
+              rw [hlen]
+              exact (List.getElem?_eq_some_iff.mp hid).1
+            exact hfill.none_at p v (by simpa using hm) hp
+          apply hct.inPlace i op hop taken ins full htk hnodup hplace _ hfill
           intro p hp
           rw [List.mem_map] at hp
           obtain ⟨⟨p', v⟩, hm, rfl⟩ := hp
